@@ -784,6 +784,12 @@ def classify_inv(ctx, f, t, state, acc):
     if t[0] == 'sub' and t[2] == ('c', 0) and t[1][0] == 'sub' and t[1][2] == ('c', 0) and \
             is_call(t[1][1], 'numpy.where', 'numpy.nonzero', 'numpy.argwhere') and len(t[1][1][2]) == 1:
         c = t[1][1][2][0]
+
+        def letter_index(x):
+            x = strip_int(x)
+            if x[0] == 'call' and x[1][0] == 'attr' and x[1][2] == 'index' and len(x[2]) == 1 and x[1][1] == ('c', ALPHA):
+                return x[2][0]
+            return None
         if c[0] == 'cmp' and c[1] == '==':
             for a, b in ((c[2], c[3]), (c[3], c[2])):
                 p = classify_perm(ctx, f, a, state, acc)
@@ -793,7 +799,15 @@ def classify_inv(ctx, f, t, state, acc):
                     inner = classify_inv(ctx, f, b, state, acc)
                     if inner is not None and inner[0] == 'rank':
                         return ('perm-inverse', inner[1])
+                    if letter_index(b) is not None:
+                        return ('dev', 'the rank permutation is searched for the position of the letter in ACGT (0..3), not for its '
+                                       'rank among the live arcs: the two differ whenever the live arcs are not a prefix of ACGT')
                     return None
+            # where(LIVE == ALPHA.index(sym))[0][0]: the rank of the letter among the live arcs
+            for a, b in ((c[2], c[3]), (c[3], c[2])):
+                ls = K.live_set(a, f)
+                if ls is not None and ls[1] == state and ls[0] == acc and letter_index(b) is not None:
+                    return ('rank', letter_index(b))
     # TABLE[S][x] / TABLE[S, x]: the table entry itself used as the digit
     if t[0] == 'sub' and t[1][0] == 'sub' and t[1][1][0] == 'v' and t[1][1][1] == 'shuffles':
         return ('dev', 'the decoder takes the table entry %s itself as the digit: that is the rank among all four columns, '
@@ -1384,6 +1398,34 @@ def r_loop_test(ctx):
                 return x[0] == 'cmp' and x[1] in ('==', '!=') and x[3] == ('c', '0') and x[2][0] == 'v'
             return x[0] == 'cmp' and x[1] in ('<', '<=') and is_call(x[3], 'builtins.len') and x[3][2] == (('v', 'binary_message', 'P'),)
         bases = [x for x in walk_term(t) if base(x)]
+        if not bases and t == ('c', True):
+            # `while True:` with the message-consumed test as a break inside: the test must come before the walk step of the
+            # round (a do-while emits one nucleotide even for a message of value 0 / an empty message)
+            dom = f.dominators()
+            body = {n.id for n in f.nodes if loop.hid in n.loops}
+            stepn = {s.node.id for s in loop.steps}
+            found_break = None
+            for x in f.nodes:
+                if x.id in body and isinstance(x.stmt, ast.Break) and x.loops[-1] == loop.hid:
+                    for atom, pol in ctx.conds(f, x):
+                        if base(atom):
+                            found_break = (x, atom, pol)
+            if found_break is not None:
+                x, atom, pol = found_break
+                test_id = [tid for _t, _p, tid in x.conds][-1]
+                after_step = any(s in dom[test_id] for s in stepn)
+                if after_step:
+                    run.refute('R-TIGHT', f, '%s:loop-ends-when-message-consumed' % loop.mode, x.lineno,
+                               "the %s-mode loop of encode is `while True` and tests `%s` only after the walk step of the round: one "
+                               "nucleotide is emitted even when the message is already consumed before the first round (message "
+                               "value 0), so the strand is longer than the documented walk" % (loop.mode, show(atom)[:40]),
+                               inputs='messages of value 0 (all-zero bits), the empty message')
+                    continue
+                before = all(test_id in dom[s] for s in stepn)
+                if before:
+                    run.ok('R-TIGHT', f, '%s:loop-ends-when-message-consumed' % loop.mode, x.lineno,
+                           'while True with the message-consumed break before the step')
+                    continue
         if not bases:
             run.undecided('R-TIGHT', f, '%s:loop-ends-when-message-consumed' % loop.mode, head.lineno,
                           'message-consumed test not recognised in %s' % show(t)[:80])
